@@ -22,7 +22,7 @@ def other_kind(k):
 
 def pattern_alts(kind):
     return (('native', TStr(kind)), ('other', TStr(other_kind(kind))), ('eof', TCls('EOF')), ('timeout', TCls('TIMEOUT')),
-            ('re', TRegex('?')), ('bad', T('Int', 'nonpattern')))
+            ('re', TRegex('?')), ('bad', T('Any', 'nonpattern')))
 
 
 def pattern_extra(b, kind):
